@@ -132,7 +132,17 @@ def strategy(tier: str) -> Any:
 
     nested = st.builds(lambda k, extra, r, a, imc: {"family": "runtime-nested", "k": k, "mc": k + extra, "res": r, "async": a, "inner_mc": imc},
                        st.integers(2, 3), st.integers(0, 1), st.sampled_from(["async-thread", "thread"]), st.booleans(), st.integers(1, 2))
-    return st.one_of(*([_sched_strategy(tier)] * 24 + [nested]))
+    from .c04 import _very_wide  # scale: 33-48 independent pooled nodes, all of them allowed in flight at once
+
+    base = _sched_strategy(tier)
+    wide = _very_wide()
+
+    @st.composite
+    def pick(draw: Any) -> Any:
+        k = draw(st.integers(0, 49))
+        return draw(wide if k == 0 else nested if k in (1, 2) else base)
+
+    return pick()
 
 
 def _sched_strategy(tier: str) -> Any:
